@@ -327,6 +327,9 @@ pub struct Case {
     /// step bound of this case (0 = the default `run::STEP_BOUND`); directed families with very many frames raise it
     #[serde(default)]
     pub step_bound: u32,
+    /// Some(n): the callers of the bind requests give up (drop the future) when Wake(n) fires
+    #[serde(default)]
+    pub bind_cancel: Option<u8>,
 }
 
 impl Default for BindPolicy {
@@ -354,6 +357,7 @@ impl Default for Case {
             bridges: vec![],
             keepalive: [false, false],
             step_bound: 0,
+            bind_cancel: None,
         }
     }
 }
